@@ -367,10 +367,27 @@ CLAIMED["C31"] = dict(
          "(absolute thresholds in find_shells: no numerical derivatives on non-orthogonal boxes at the default step).",
     note=TB + "; weights come out of an SVD on concrete floats: polynomial coefficients compared with a tolerance tied to the code's B1 tolerance; np.linalg.eigh external")
 
+CLAIMED["C24"] = dict(
+    text="Orthonormality and span statements rest on numpy's eigen-solver and SVD (external contracts: eigh returns orthonormal eigenvectors; "
+         "orthogonalize(A) = U V^dagger of the SVD = the polar factor A (A^dagger A)^(-1/2) = A T). What contracts decide is the ASSEMBLY around "
+         "them (real text, symbolic matrices, per shape 5 bands = 1 frozen + 3 free + 1 outside the outer window, 3 Wannier functions, 2 "
+         "neighbours): Kpoint_and_neighbours.__init__ / rotate_to_projections / update (localisation on and off, Z mixing on and off) / calc_Z "
+         "with get_max_eig and orthogonalize replaced by ARBITRARY matrices of their contracts' shape -- the returned gauge has exactly zero "
+         "rows outside the outer window, its selected rows are U_loc T with U_loc = [unit vectors on the frozen bands | chosen eigenvectors on "
+         "the free bands] and T the product of the polar-factor matrices (so, under the external contracts, orthonormal columns and frozen "
+         "states in the span; the step 'U_loc orthonormal when the eigenvectors are' is a proved lemma), the eigen-problems are "
+         "A_free A_free^dagger and Z = sum_b w_b[(M_ff U_b)(..)^dagger + M_fz M_fz^dagger] (mixed with the previous Z), asked for nWfree = "
+         "num_wann - nfrozen vectors; utility.get_max_eig picks the columns of the nvec largest eigenvalues (every ordering), orthogonalize "
+         "drops the singular values and falls back to its input with a warning; the statements of wannierise() that build the frozen / free / "
+         "outer masks (extracted by position from the function body): frozen = window result + explicit states of that k-point, free = outer and "
+         "not frozen, nothing outside the outer window, a frozen band outside the outer window refused. Bounded stand-in: installed "
+         "Kpoint_and_neighbours with real eigh / SVD on random unitary overlaps: U^dagger U = 1, frozen bands kept by the projector, exact zeros "
+         "outside the outer window after __init__ and both kinds of update.",
+    note=TB + "; eigh / SVD / inv external; select_window_degen is C15's contract; site-symmetry symmetrizers are identities here (C20 / C21 territory)")
+
 NOT_APPLICABLE = {
     "C20": "real-space symmetrisation is a data-dependent floating-point orbit search over irrep objects; its postcondition is only statable through an eigen-solver, no discrete/algebraic kernel is left once externals are abstracted (DESIGN section 7)",
     "C21": "rotation matrices are produced inside sympy (polynomial expansion + evalf); orthogonality/composition live in that CAS computation, outside any contract this engine can generate VCs for (DESIGN section 7)",
-    "C24": "orthonormality/frozen-span statements reduce entirely to assumed contracts of eigh/SVD inside an iteration; the only code-side kernel (window bookkeeping) is covered under C15 (DESIGN section 7)",
     "C28": "agreement only up to discretisation error on converged grids: a numerical-analysis statement, not a postcondition of a call (DESIGN section 7)",
 }
 
